@@ -307,3 +307,12 @@ package app
 //@   requires s != nil
 //@   loop 1 invariant [none_before] rangeindex < len(s.routes) && noRouteBefore(s, route, rangeindex + 1)
 //@   ensures [C15:targets_of_the_first_route_with_that_path] (firstRouteAt(s, route, rangeindex1) && (s.routes[rangeindex1].Pull != nil ==> len(result) == 1 && result[0] == "pull") && (s.routes[rangeindex1].Pull == nil ==> forall k int :: 0 <= k && k < len(result) ==> result[k] != "" && exists j int :: 0 <= j && j < len(s.routes[rangeindex1].Deliveries) && result[k] == trim(s.routes[rangeindex1].Deliveries[j].URL))) || (noRouteBefore(s, route, len(s.routes)) && len(result) == 0)
+
+// ---- C17: a reload that changes a signing window is never taken for "signing unchanged" (the dispatcher keeps the
+// signing configuration it was started with, so such a reload must demand a restart) ----
+//@ func hmacSigningSecretVersionsEqual
+//@   loop 1 invariant [equal_so_far] len(a) == len(b) && rangeindex < len(a) && forall j int :: 0 <= j && j <= rangeindex ==> a[j].ID == b[j].ID && a[j].Ref == b[j].Ref && a[j].ValidFrom == b[j].ValidFrom && a[j].ValidUntil == b[j].ValidUntil && a[j].HasUntil == b[j].HasUntil
+//@   ensures [C17:versions_reported_equal_have_the_same_ids_refs_and_windows] result ==> len(a) == len(b) && forall j int :: 0 <= j && j < len(a) ==> a[j].ID == b[j].ID && a[j].Ref == b[j].Ref && a[j].ValidFrom == b[j].ValidFrom && a[j].ValidUntil == b[j].ValidUntil && a[j].HasUntil == b[j].HasUntil
+//@ func hmacSigningConfigEqual
+//@   ensures [C17:signing_reported_equal_means_same_secret_source_selection_and_headers] result && a != nil && b != nil ==> a.SecretRef == b.SecretRef && a.SecretSelection == b.SecretSelection && a.SignatureHeader == b.SignatureHeader && a.TimestampHeader == b.TimestampHeader && len(a.SecretVersions) == len(b.SecretVersions) && forall j int :: 0 <= j && j < len(a.SecretVersions) ==> a.SecretVersions[j].ID == b.SecretVersions[j].ID && a.SecretVersions[j].Ref == b.SecretVersions[j].Ref && a.SecretVersions[j].ValidFrom == b.SecretVersions[j].ValidFrom && a.SecretVersions[j].ValidUntil == b.SecretVersions[j].ValidUntil && a.SecretVersions[j].HasUntil == b.SecretVersions[j].HasUntil
+//@   ensures [C17:signing_switched_on_or_off_is_a_change] result ==> (a == nil) == (b == nil)
